@@ -62,8 +62,8 @@ class Allow:
         if d in ("actor_ref::ActorRef::<T>::identity", "actor_ref::ActorWeak::<T>::identity", "Identity::name", "Identity::new"):
             self.erased_local.add(d)
             return "pure getter"
-        if d in anchors.bookkeeping_fns(self.f):
-            self.erased_local.add(d)
+        if d in anchors.bookkeeping_fns(self.f) or rd in anchors.bookkeeping_fns(self.f):      # rd: a method of a private extension trait on the map
+            self.erased_local.add(rd if rd in anchors.bookkeeping_fns(self.f) else d)
             return None if self.strict_local else "wait-for bookkeeping"
         if nm in ("try_with", "scope") and "LocalKey" in d:
             return "task-local scope"
